@@ -45,12 +45,12 @@ CLAIMED = {
              "(pthread_cond_wait unlocks and relocks it behind the PMutex API, so any other state they consulted would be stale after a wait). " + DECIDES % "C03",
         technique="wrapper-wiring check, cross-unit record-layout check, who-reads-field rule over the mutex unit's lock functions"),
     "C19": dict(
-        text="Rules C19.1-C19.4 over every call site of an interruptible blocking call in the library (sem_open x2, sem_wait, shm_open x2, "
+        text="Rules C19.1-C19.5 over every call site of an interruptible blocking call in the library (sem_open x2, sem_wait, shm_open x2, "
              "connect, accept, recv, recvfrom, send, sendto, poll, clock_nanosleep): in the scenario 'this evaluation failed with EINTR on "
              "the error channel POSIX defines for the call' (errno, or the return value for clock_nanosleep) every feasible path re-issues "
              "the same call before any function exit (paths leaving through the genuine failure of a different fallible call are excused); "
              "the sleep is re-issued with the remainder the call filled in and 0 is returned only after the call returned 0; close() is not "
-             "retried. " + DECIDES % "C19",
+             "retried; EALREADY, the answer to a connect re-issued after EINTR, is classified IN_PROGRESS by the errno table (C19.5). " + DECIDES % "C19",
         technique="scenario-seeded path-sensitive guard dataflow from each blocking call site (must-reach-retry-before-exit), POSIX error-channel table"),
     "C09": dict(
         text="Rules C09.1-C09.6 on psocket.c/perror.c: every interruptible call site re-issues the call after EINTR; on a blocking socket a "
@@ -66,15 +66,16 @@ CLAIMED = {
         text="Rules C10.1-C10.6 on psocket.c (C10.5 includes: a flag stored into a bit-field narrower than its source is normalised to 0/1): every read of socket->fd in an operation is reached only after the closed test passed "
              "(pp_socket_check summarised and itself checked, named exceptions with reasons); close sets fd=-1/closed/!connected/!listening on "
              "success, is idempotent and is the only closer used by free; a non-blocking socket never reaches the condition wait or a retry "
-             "in the would-block scenario; poll gets the socket timeout when positive else a negative constant, fixed before the retry loop, "
-             "0 -> TIMED_OUT, 1 -> TRUE; getters return the field their setter writes; socket()/accept() descriptors get close-on-exec on "
+             "in the would-block scenario; the descriptor inside a PSocket is always non-blocking (the one fcntl(F_SETFL) setter ORs O_NONBLOCK when asked for blocking=FALSE, and every "
+             "constructor that installs a descriptor passes through it with FALSE before returning the object); poll gets the socket timeout when positive else a negative constant, fixed before the retry loop, "
+             "0 -> TIMED_OUT, 1 -> TRUE, and a poll that returned 0 or 1 is never re-issued (whatever errno holds); getters return the field their setter writes; socket()/accept() descriptors get close-on-exec on "
              "every success path. " + DECIDES % "C10",
         technique="guard dataflow with dominance of the closed check, scenario flows (non-blocking would-block, successful creation), term evaluation of the poll timeout, field-agreement of getters/setters"),
     "C06": dict(
         text="Rules C06.1-C06.5. C06.1-C06.4 on psemaphore-posix.c: name typestate in the create path (exclusive create first; never a plain open of a name "
              "just unlinked; every creating open passes the requested initial value; CREATE mode on an existing name unlinks and "
              "re-creates, OPEN mode neither unlinks nor creates), ownership flag only where the handle created the name or took "
-             "ownership, close always / unlink only when owner, acquire/release wiring with exact result mapping, key identity. C06.5 on psemaphore-sysv.c (not selectable in the Linux build, "
+             "ownership, close always / unlink only when owner, acquire/release wiring with exact result mapping, key identity (the key derivation in pipc.c refers to no static or global variable, so concurrent opens of different names cannot meet). C06.5 on psemaphore-sysv.c (not selectable in the Linux build, "
              "analysed with the POSIX unit's flags): semop -1 / +1 on semaphore 0 from constant sembuf objects, blocking, with the same undo flag "
              "in both directions, every semop retried on EINTR; exclusive semget first, ownership only on its success, SETVAL exactly when owned or "
              "in CREATE mode, IPC_RMID only by the owner. " + DECIDES % "C06",
@@ -88,17 +89,19 @@ CLAIMED = {
              "shm_segsz, lock semaphore CREATE exactly for the creator, IPC_RMID only with no attachment left, lock/unlock wiring. " + DECIDES % "C07",
         technique="path-sensitive typestate (descriptor open/closed, role creator/follower, size provenance) with guard facts; frozen-field rule between mmap and munmap"),
     "C08": dict(
-        text="Rules C08.1-C08.6 on pshmbuffer.c (+ the reported-size half of C08.4 on pshm-posix.c): every segment access and every call of "
+        text="Rules C08.1-C08.8 on pshmbuffer.c (+ the reported-size half of C08.4 on pshm-posix.c): every segment access and every call of "
              "the unlocked space helpers lies between a successful lock and unlock, every path unlocks; stored positions are (old + n) % size "
              "computed from the word loaded under the same lock; the ring is written only after 'free < len' tested false, refusal returns 0 "
              "untouched, read takes min(used, len); for each of the three orderings of the positions used + free + 1 == size with no "
              "negative subtraction (linear normaliser, no solver); contiguous copy only under start+n<=size, wrapped copy lengths/offsets "
              "identities, copied total == position advance; clear zero-fills from offset 0 over the whole reported segment (at least the "
-             "header holding both positions); the ring modulus derives only from the size the shm layer reports. One known "
+             "header holding both positions); the ring modulus derives only from the size the shm layer reports; opening, freeing or taking ownership of a handle never touches the segment's memory (C08.7); "
+             "no conversion narrows a position, size or length except into the documented pint result (C08.8). One known "
              "finding (reported size of an existing segment depends on the opener's argument). " + DECIDES % "C08",
         technique="term-valued path-sensitive dataflow with lock typestate; linear-form normalisation of the space/copy identities over the finite set of position orderings"),
     "C05": dict(
-        text="Rules C05.1-C05.5 on puthread.c / puthread-posix.c (C05.3 includes: the native detach state handed to pthread_attr_setdetachstate agrees with the joinable flag on every path): native create and all initialising stores under the creation spinlock, "
+        text="Rules C05.1-C05.5 on puthread.c / puthread-posix.c (C05.3 includes: the native detach state handed to pthread_attr_setdetachstate agrees with the joinable flag on every path, and pthread_detach is never called afterwards; "
+             "C05.2 includes: p_uthread_free_internal is reached from p_uthread_unref only and the creating function never releases the handle of a thread it has started): native create and all initialising stores under the creation spinlock, "
              "the new thread reads creator-initialised fields only after passing it; created handles start with 2 references, adopted "
              "with 1, ref_count otherwise only through atomic inc/dec_and_test, release exactly when dec_and_test is TRUE, own reference "
              "dropped by the destructor of the library TLS slot, and a function that drops the handle it read from that slot clears the slot "
@@ -120,14 +123,15 @@ CLAIMED = {
              "of (sum, operands, carry-in). " + DECIDES % "C11",
         technique="switch / if-chain / constant-table dispatch recovery, exit typestate with guard dataflow at slot calls, linear index evaluation of the encoder loop, typed-AST narrowing rule with sibling cross-check, constant-geometry agreement with record layouts, transitive field write sets, index-aliasing rule, exhaustive evaluation of comparison-only predicates over the finite set of ordering classes"),
     "C12": dict(
-        text="Rules C12.1-C12.5 on ptree*.c: dispatch triples per tree type; every descent loop (lookup, 3 inserts, 3 removes) calls the "
+        text="Rules C12.1-C12.6 on ptree*.c: dispatch triples per tree type; every descent loop (lookup, 3 inserts, 3 removes) calls the "
              "comparator as (search key, node key, data) and goes left on < 0 / right on > 0; insert returns TRUE exactly when a new node "
              "with the given pair is linked in (FALSE on replace and allocation failure), remove TRUE exactly when one node is unlinked and "
              "freed; nnodes changes only on those TRUE results and once per node in clear; the Morris traversal counts its thread links, "
-             "returns early only with the counter zero and stops calling back after a stop request. " + DECIDES % "C12",
+             "returns early only with the counter zero, in a counter at least as wide as nnodes, and stops calling back after a stop request; "
+             "C12.6 link surgery: a child link replaced under the test parent->F == node is parent->F on the true edge and the other link on the false edge. " + DECIDES % "C12",
         technique="term-valued dataflow with loop widening over the variant functions, guard dataflow for orientation/count/traversal discipline, switch-table recovery"),
     "C13": dict(
-        text="Rules C13.1-C13.4 on ptree-rb.c / ptree-avl.c. C13.2/C13.3 (shape analysis by materialisation, all local shapes, symbolic heights): "
+        text="Rules C13.1-C13.5 on ptree-rb.c / ptree-avl.c (C13.5: no path reads a node - its colour or factor for a repaint or retrace decision, its links - after handing it to p_free). C13.2/C13.3 (shape analysis by materialisation, all local shapes, symbolic heights): "
              "from the loop invariant every path of the red-black insert/remove fix-ups and of the AVL insert/remove retracing (rotations analysed "
              "inline) either returns with the invariant restored - equal black heights and no red-red edge, resp. every stored balance factor equal "
              "to the height difference with |difference| <= 1 and the old subtree height - with in-order sequence, parent links and *root intact, "
@@ -149,28 +153,28 @@ CLAIMED = {
              "subscript of the all-bucket walkers is a counter bounded by table->size, size is stored once and equals the (symbolically evaluated) "
              "zero-filled slot count; C15.6 (chain shape analysis, symbolic table, chains of every length, unique keys): insert / lookup / remove "
              "subscript the table only with the key's hash modulo table->size, insert overwrites a present key in place and otherwise links exactly "
-             "one new node after comparing every node, lookup returns the stored value or (ppointer)-1, remove unlinks and releases exactly the key's "
+             "one new node after comparing every node, lookup returns the stored value or (ppointer)-1 only after comparing every node (a NULL key and an all-ones value are ordinary inputs, explored both ways; keys are never compared through a narrower integer), remove unlinks and releases exactly the key's "
              "node; listing functions walk every chain to its end; no use after release; C15.5 (shape analysis with summarised list segments and symbolic "
              "sequence contents, analysed to a fixpoint, lists of every length): p_list_append / prepend / remove / reverse / last / foreach / free return or "
              "leave exactly the sequence the corresponding sequence operation gives, never follow a released item's link, never dereference NULL; the length "
              "counter is 1 + one per link followed. " + DECIDES % "C15",
         technique="typed-AST signedness rule, index provenance, loop-exit analysis of chain walks, path-sensitive use-after-release typestate, list-segment shape analysis with sequence-content tracking (fold/materialise to a fixpoint)"),
     "C16": dict(
-        text="Rules C16.1-C16.7 on pinifile.c: every unbounded %[ conversion and strcpy in the parse loop fits its destination "
+        text="Rules C16.1-C16.8 on pinifile.c: every unbounded %[ conversion and strcpy in the parse loop fits its destination "
              "array given the fgets bound; parameter objects come only from those arrays, which bounds the list getter's buffer; sections "
              "are linked only with a non-empty key list and parameters only into an open section; getters return the default for a missing "
              "key and release the looked-up copy; each line string is freed and the file closed on every path; typed getters use the "
              "documented conversion primitive and radix and return the converted number through no narrower type; the four line patterns, their order and conversion counts are the documented grammar "
              "table and the header pattern is applied only to lines that start with '[' and end with ']'; section names, keys and values reach "
-             "their constructors only as trimmed text and the empty-quotes normalisation is made on the trimmed value. What the scanf patterns accept "
+             "their constructors only as trimmed text and the empty-quotes normalisation is made on the trimmed value; a line byte compared with a constant is read through a type that can hold the constant (C16.8). What the scanf patterns accept "
              "beyond that table agreement is not decided. " + DECIDES % "C16",
         technique="format-string conversion bounds against array types, single-producer who-calls rule, restricted guard dataflow typestate for line/file/section, format-table agreement with edge-cut dominance of the header guards, raw/trimmed typestate of the text buffers"),
     "C17": dict(
-        text="Rules C17.1-C17.4 on psocketaddress.c: every access through the native/destination buffer lies below the established length "
+        text="Rules C17.1-C17.5 on psocketaddress.c: every access through the native/destination buffer lies below the established length "
              "(offsets and sizes from the record layouts); to_native and new_from_native copy the same (object field, native byte range) "
              "pairs per family, port byte-swapped both ways and nothing else, family constants agree; get_native_size and to_native's guard "
-             "use the same structure sizes; text path restricted to numeric hosts with the addrinfo result freed on every path, and present "
-             "(after preprocessing) whenever the unit's compile flags provide getaddrinfo and a scope id. " + DECIDES % "C17",
+             "use the same structure sizes, and new_from_native treats its length as a lower bound only (a longer buffer, as the kernel reports for sockaddr_storage, is accepted); text path restricted to numeric hosts with the addrinfo result freed on every path, and present "
+             "(after preprocessing) whenever the unit's compile flags provide getaddrinfo and a scope id; is_any compares with 0.0.0.0 and is_loopback tests 127.0.0.0/8 on a byte-swapped copy (C17.5). " + DECIDES % "C17",
         technique="guard dataflow lower bounds against record layouts, sibling field-pair agreement, constant-table agreement"),
     "C18": dict(
         text="Rules C18.1-C18.6 over every function of the 37 analysed units that acquires a resource (every allocation site is treated "
@@ -186,7 +190,7 @@ CLAIMED = {
     "C20": dict(
         text="Rules C20.1-C20.5: ownership table inferred from the constructors (fields filled from acquiring calls) checked against each "
              "object's free function; every descriptor/handle obtained in a function is closed once, owned by the returned object or "
-             "returned on every path, and never closed twice; munmap gets the mapped length; allocations held only in locals are released "
+             "returned on every path, and never closed twice - a descriptor a constructor was given as a parameter is not closed by the constructor's failure exits when its callers close it too; munmap gets the mapped length; allocations held only in locals are released "
              "on every path including success paths; IPC names are unlinked by the free path exactly when owned and the ownership flag is "
              "set before any later step of the creation can fail. /proc-level accounting over call sequences is not decided. " + DECIDES % "C20",
         technique="inferred ownership table vs. release sets of free functions; path-sensitive resource typestate for handles and temporaries; guard dataflow for the ownership flag"),
